@@ -92,7 +92,7 @@ PROPS = {
     },
     "C11": {
         "profile": "block", "n_quick": 5, "n_thorough": 40, "nops": 18, "nlists": 3, "cfgs": SIX,
-        "corpus": ["ortho_terminate", "ortho_interrupt"],
+        "corpus": ["ortho_terminate", "ortho_interrupt", "ortho_terminate_and_interrupt"],
         "monitor": None,
         "relevant": M.relevant_by(M.proj(M.ALL, keep_res=True, keep_snap=True)),
         "rule": "machines with terminate and interrupt states (1-2 end-interrupt events) at any level",
@@ -100,6 +100,7 @@ PROPS = {
     },
     "C12": {
         "profile": "throw", "n_quick": 5, "n_thorough": 40, "nops": 16, "nlists": 3, "cfgs": SIX,
+        "corpus": ["throw_positions"],
         "monitor": M.mon_C12,
         "relevant": M.relevant_by(M.proj(M.ALL, keep_res=True, keep_snap=True, keep_ev=True)),
         "rule": "plans make the n-th behaviour invocation of an operation throw std::runtime_error (guards, actions, "
@@ -108,7 +109,7 @@ PROPS = {
     },
     "C09": {
         "profile": "pseudo", "n_quick": 5, "n_thorough": 40, "nops": 18, "nlists": 3, "cfgs": SIX,
-        "corpus": ["exitpt_outside"],
+        "corpus": ["exitpt_outside", "fork_partial_none", "fork_partial_shallow_other", "fork_partial_shallow_fork", "fork_partial_always"],
         "monitor": None,
         "relevant": M.relevant_by(M.proj(M.ALL, keep_res=True, keep_snap=True, keep_ev=True)),
         "rule": "machines whose submachines have explicit-entry states, forks, entry and exit pseudo states (rows generated "
